@@ -125,7 +125,7 @@ Proof.
     { intros E' H Hle v Hv Hs. destruct (H v Hv Hs) as (r & p & y & K & A & B & C & D & F).
       exists r, p, y, K. repeat split; try assumption. eapply kle_trans; eauto. }
     destruct o as [r p v j t|r p|t]; cbn [log_ok] in HL.
-    + destruct HL as (Hg & Hr & Hvt & HL'). destruct (IH HL' p0 pm Hcm HR HB) as [R1 B1].
+    + destruct HL as (Hg & Hr & Hvt & _ & _ & HL'). destruct (IH HL' p0 pm Hcm HR HB) as [R1 B1].
       destruct Ho as (K & HK1 & HK2 & HK3).
       change (ovotes k (OBroadcast r p v j t :: outs) ++ E) with (voteS k r p v :: ovotes k outs ++ E). split.
       * constructor; [exact R1|]. apply Spec.step_honest; [exact Hh|exact Hg|].
@@ -139,6 +139,41 @@ Proof.
            eapply kle_trans; [exact F|]. right. eapply klt_kle_trans; eauto.
     + destruct (IH HL p0 pm Hcm HR HB) as [R1 B1]. split; [exact R1|apply Hweak; assumption].
     + destruct (IH HL p0 pm Hcm HR HB) as [R1 B1]. split; [exact R1|apply Hweak; assumption].
+Qed.
+
+
+(* ---------- what honest members emit: acceptable to every peer, and backed by evidence (C07 on the network) ---------- *)
+Lemma adm_mono E E' m : incl E E' -> adm c honest E m -> adm c honest E' m.
+Proof.
+  intros Hi (A & B & C & D). split; [exact A|]. split; [exact B|]. split; [apply Hi; exact C|].
+  destruct (m_phase m); try exact D.
+  - destruct D as (D1 & D2 & j & D3 & D4). split; [exact D1|]. split; [exact D2|]. exists j. split; [exact D3|eapply jprev_mono; eauto].
+  - destruct D as [D|(D1 & j & D3 & D4)]; [left; exact D|right]. split; [exact D1|]. exists j. split; [exact D3|eapply jprev_mono; eauto].
+  - destruct D as [D|(D1 & j & D3 & D4)]; [left; exact D|right]. split; [exact D1|]. exists j. split; [exact D3|eapply jsame_mono; eauto].
+  - destruct D as (D1 & D2 & j & D3 & D4 & D5). split; [exact D1|]. split; [exact D2|]. exists j. split; [exact D3|]. split; [eapply backed_mono; eauto|exact D5].
+Qed.
+
+Lemma log_emissions k E outs : member k -> log_ok c honest input k E outs ->
+  forall r p v j t rank, In (OBroadcast r p v j t) outs ->
+    adm c honest (ovotes k outs ++ E) (mkM k r p v rank j) /\ (v <> [] -> evid c honest input k (ovotes k outs ++ E) v).
+Proof.
+  intros [Hk Hh]. induction outs as [|o outs IH]; intros HL r p v j t rank Hin; [destruct Hin|].
+  assert (Hinc : incl (ovotes k outs ++ E) (ovotes k (o :: outs) ++ E)).
+  { intros x Hx. destruct o; cbn; try exact Hx. right. exact Hx. }
+  destruct Hin as [->|Hin].
+  - cbn [log_ok] in HL. destruct HL as (_ & Hr & Hvt & Haj & Hev & _).
+    change (ovotes k (OBroadcast r p v j t :: outs) ++ E) with (voteS k r p v :: ovotes k outs ++ E).
+    split.
+    + split; [exact Hk|]. split; [exact Hr|]. split; [left; reflexivity|]. cbn [m_phase m_round m_value m_just].
+      unfold admj in Haj. destruct p; try contradiction.
+      * destruct Haj as (A & B & C). split; assumption.
+      * destruct Haj as (A & B & jj & C & D). split; [exact A|]. split; [exact B|]. exists jj. split; [exact C|]. eapply jprev_mono; [|exact D]. intros x Hx; right; exact Hx.
+      * destruct Haj as [(A & B)|(A & jj & C & D)]; [left; split; assumption|right]. split; [exact A|]. exists jj. split; [exact C|]. eapply jprev_mono; [|exact D]. intros x Hx; right; exact Hx.
+      * destruct Haj as [(A & B)|(A & jj & C & D)]; [left; split; assumption|right]. split; [exact A|]. exists jj. split; [exact C|]. eapply jsame_mono; [|exact D]. intros x Hx; right; exact Hx.
+      * destruct Haj as (A & B & jj & C & D & F). split; [exact A|]. split; [exact B|]. exists jj. split; [exact C|]. split; [|exact F]. eapply backed_mono; [|exact D]. intros x Hx; right; exact Hx.
+    + intros Hne. eapply evid_mono; [|exact (Hev Hne)]. intros x Hx; right; exact Hx.
+  - assert (HL' : log_ok c honest input k E outs) by (destruct o; cbn [log_ok] in HL; [apply HL|exact HL|exact HL]).
+    destruct (IH HL' r p v j t rank Hin) as [A B]. split; [eapply adm_mono; eauto|intros Hne; eapply evid_mono; [exact Hinc|exact (B Hne)]].
 Qed.
 
 (* ---------- one instance step keeps the instance-level invariants ---------- *)
@@ -251,6 +286,41 @@ Qed.
 (* C01/C02, refinement: every execution of a network of Layer-N instances is an execution of the Layer-S protocol *)
 Theorem network_refines_spec acts : all_ok net0 acts -> reachable (n_votes (nrun net0 acts)).
 Proof. intros H. apply (NI_run acts net0 NI_net0 H). Qed.
+
+
+(* every message an honest member emits is acceptable to its peers (admissible w.r.t. the votes cast so far, hence
+   deliverable to anybody at any later time) and is for a value it has evidence for *)
+Definition act_event (a : action) : option (Z * event) :=
+  match a with
+  | AStart k now => Some (k, EvStart now) | ADeliver k now m sway => Some (k, EvDeliver now m sway)
+  | AAlarm k now sway => Some (k, EvAlarm now sway) | AByz _ => None
+  end.
+Lemma node_action_Ev n a k e : NI n -> aok n a -> act_event a = Some (k, e) ->
+  member k /\ Ev c honest input k (n_votes n) (step c (clear_out (n_inst n k)) e).
+Proof.
+  intros [HR HN] Hok Ha. destruct a as [k0 now|k0 now m sway|k0 now sway|v]; cbn in Ha; try discriminate Ha; injection Ha as <- <-; cbn [aok] in Hok.
+  - destruct Hok as [Hk Hph]. split; [exact Hk|]. destruct (HN k0 Hk) as (_ & Hinit & _). rewrite (Hinit Hph).
+    apply (Ev_started c honest input k0 (n_votes n) now). apply Hinput. apply Hk.
+  - destruct Hok as (Hk & Hph & Hadm). split; [exact Hk|]. destruct (HN k0 Hk) as (_ & _ & Hs). destruct (Hs Hph) as [(HI & HP & HA & HJ & He) [A B]].
+    apply (Ev_step c honest input Hwf Hscaled k0 (n_votes n)); [|exact HA|exact HJ|exact He|exact Hadm].
+    split; [|exact I]. split; [apply (EvC_view c honest input k0 _ _ (n_inst n k0)); [reflexivity|exact A]|apply (EvP_view k0 _ (n_inst n k0)); [reflexivity|exact B]].
+  - destruct Hok as (Hk & Hph). split; [exact Hk|]. destruct (HN k0 Hk) as (_ & _ & Hs). destruct (Hs Hph) as [(HI & HP & HA & HJ & He) [A B]].
+    apply (Ev_step c honest input Hwf Hscaled k0 (n_votes n)); [|exact HA|exact HJ|exact He|exact I].
+    split; [|exact I]. split; [apply (EvC_view c honest input k0 _ _ (n_inst n k0)); [reflexivity|exact A]|apply (EvP_view k0 _ (n_inst n k0)); [reflexivity|exact B]].
+Qed.
+
+Theorem network_emissions acts a k e : all_ok net0 acts -> aok (nrun net0 acts) a -> act_event a = Some (k, e) ->
+  forall r p v j t rank, In (OBroadcast r p v j t) (i_out (n_inst (nstep (nrun net0 acts) a) k)) ->
+    adm c honest (n_votes (nstep (nrun net0 acts) a)) (mkM k r p v rank j) /\
+    (v <> [] -> evid c honest input k (n_votes (nstep (nrun net0 acts) a)) v).
+Proof.
+  intros Hok Ha He r p v j t rank Hin. pose proof (NI_run acts net0 NI_net0 Hok) as HNI.
+  destruct (node_action_Ev _ a k e HNI Ha He) as [Hk [_ HL]].
+  assert (Hst : nstep (nrun net0 acts) a = node_step (nrun net0 acts) k e).
+  { destruct a; cbn in He; try discriminate He; injection He as <- <-; reflexivity. }
+  rewrite Hst in *. unfold node_step in *. cbn [n_inst n_votes] in *. rewrite upd_same in Hin.
+  apply (log_emissions k (n_votes (nrun net0 acts)) _ Hk HL r p v j t rank Hin).
+Qed.
 
 (* ---------- decisions ---------- *)
 (* what an instance reports as decided is backed by a strong quorum of DECIDE votes in the global set *)
